@@ -1,11 +1,11 @@
-SPECIFICATION FairSpec
+SPECIFICATION MCSpec
 CONSTANTS AggReplace = FALSE
  AggKeepFirst = FALSE
- EarlyAdd = FALSE
+ EarlyAdd = TRUE
  MCKinds = {"pro"}
  MaxStores = 2
- MaxQ = 2
+ MaxQ = 1
  MaxExp = 1
  MaxSet = 1
-PROPERTIES Live
+INVARIANTS ExpiredGone
 CHECK_DEADLOCK FALSE
